@@ -402,8 +402,9 @@ impl StrExt for str {
             // definition in the spec: any character not in the set `[A-Za-z0-9_]`.
             // The `s` flag makes the wildcards match any character, including a newline.
             let regex = format!(r"(?s)(?-u:^|\W|\b){}(?-u:\b|\W|$)", chunks.concat());
-            let re = Regex::new(&regex).expect("regex construction should succeed");
-            re.is_match(self.as_bytes())
+            // The compiled size of the regex is limited, a pattern that exceeds it cannot match
+            // anything that fits in an event.
+            Regex::new(&regex).is_ok_and(|re| re.is_match(self.as_bytes()))
         } else {
             // Look at each occurrence of the pattern that starts a new word, without recursing: the
             // number of words is only limited by the size of the value.
